@@ -405,6 +405,56 @@ pub fn raster(sink: &mut Sink, seed: u64, thorough: bool) {
     }
 }
 
+// ------------------------------------------------------------------ custom shape callbacks (C15: "custom shape callbacks ... see a correct map")
+/// The callback encodes the type label it is handed into the height of the sub-path it returns: v.{type+1}
+fn label_callback(y: usize, x: usize, m: fast_qr::Module) -> String {
+    format!("M{x},{y}h1v.{}h-1", ((m.module_type() as u8) >> 1) + 1)
+}
+fn dark_only_callback(y: usize, x: usize, m: fast_qr::Module) -> String {
+    if m.value() { format!("M{x},{y}h1v.5h-1") } else { format!("M{x},{y}h1v.9h-1") }
+}
+pub fn callbacks(sink: &mut Sink, seed: u64, thorough: bool) {
+    for v in 1..=40usize {
+        if !thorough && v > 10 && v % 5 != 0 { continue; }
+        let qr = qr_of(v, seed + 5);
+        for (which, margin) in [(0usize, 0usize), (0, 3), (1, 4)] {
+            let q = qr.clone();
+            let res = guarded(60, move || {
+                let mut b = SvgBuilder::default();
+                b.margin(margin);
+                b.shape(Shape::Command(if which == 0 { label_callback } else { dark_only_callback }));
+                b.to_str(&q)
+            });
+            let (_, types) = pack_matrix(&qr_modules(&qr), qr.size);
+            let id = sink.id();
+            let mut ev = json!({"ev": "SvgCallback", "id": id, "tag": format!("callback:{v}:{which}"), "size": qr.size, "vals": vals_of(&qr), "types": types, "margin": margin, "which": which});
+            match res {
+                Ok(svg) => {
+                    let mut cells: Vec<Vec<i64>> = Vec::new();
+                    let mut ok = 1;
+                    match roxmltree::Document::parse(&svg) {
+                        Ok(doc) => {
+                            for n in doc.root_element().children().filter(|n| n.is_element() && n.tag_name().name() == "path") {
+                                if let Ok(p) = BezPath::from_svg(n.attribute("d").unwrap_or("")) {
+                                    let mut cur = BezPath::new();
+                                    let mut flush = |cur: &BezPath| { if cur.elements().is_empty() { return; } let b = cur.bounding_box();
+                                        cells.push(vec![b.x0.round() as i64, b.y0.round() as i64, (b.height() * 10.0).round() as i64]); };
+                                    for el in p.elements() { if let PathEl::MoveTo(_) = el { flush(&cur); cur = BezPath::new(); } cur.push(*el); }
+                                    flush(&cur);
+                                } else { ok = 0; }
+                            }
+                        }
+                        Err(_) => { ok = 0; }
+                    }
+                    ev["kind"] = json!("Ok"); ev["parsed"] = json!(ok); ev["cells"] = json!(cells);
+                }
+                Err(k) => { ev["kind"] = json!(k); ev["parsed"] = json!(0); ev["cells"] = json!([]); }
+            }
+            sink.emit(&ev);
+        }
+    }
+}
+
 // ------------------------------------------------------------------ growth: conversions and the Module API (not listed properties)
 /// Colour conversions for every input type, shape <-> string conversions, Module constructors / set / toggle, QRCode::default
 pub fn conv(sink: &mut Sink, seed: u64, thorough: bool) {
@@ -461,6 +511,26 @@ pub fn conv(sink: &mut Sink, seed: u64, thorough: bool) {
             let id = sink.id();
             sink.emit(&json!({"ev": "ModuleApi", "id": id, "tag": "conv:module", "value": v as u8, "type": ti, "new": proj(m), "ctor": proj(ctor), "set1": proj(s1), "set0": proj(s0), "toggle": proj(tg)}));
         }
+    }
+    // small API contracts: Display of levels and errors, error conversions, Module comparisons
+    {
+        use fast_qr::convert::ConvertError;
+        use fast_qr::qr::QRCodeError;
+        let lv: Vec<Vec<u32>> = LEVELS.iter().map(|e| cps(&format!("{e}"))).collect();
+        let e1 = cps(&format!("{}", QRCodeError::EncodedData)); let e2 = cps(&format!("{}", QRCodeError::SpecifiedVersion));
+        let d1 = cps(&format!("{:?}", QRCodeError::EncodedData)); let d2 = cps(&format!("{:?}", QRCodeError::SpecifiedVersion));
+        let io = || std::io::Error::new(std::io::ErrorKind::Other, "x");
+        let kinds: Vec<&str> = vec![
+            match ConvertError::from(fast_qr::convert::svg::SvgError::IoError(io())) { ConvertError::Io(_) => "Io", ConvertError::Svg(_) => "Svg", ConvertError::Image(_) => "Image" },
+            match ConvertError::from(fast_qr::convert::svg::SvgError::SvgError("e".into())) { ConvertError::Io(_) => "Io", ConvertError::Svg(_) => "Svg", ConvertError::Image(_) => "Image" },
+            match ConvertError::from(fast_qr::convert::image::ImageError::IoError(io())) { ConvertError::Io(_) => "Io", ConvertError::Svg(_) => "Svg", ConvertError::Image(_) => "Image" },
+            match ConvertError::from(fast_qr::convert::image::ImageError::ImageError("e".into())) { ConvertError::Io(_) => "Io", ConvertError::Svg(_) => "Svg", ConvertError::Image(_) => "Image" },
+            match ConvertError::from(fast_qr::convert::image::ImageError::EncodingError("e".into())) { ConvertError::Io(_) => "Io", ConvertError::Svg(_) => "Svg", ConvertError::Image(_) => "Image" },
+        ];
+        let meq = [Module::data(true) == true, Module::data(false) == false, Module::data(true) == Module::data(true), Module::data(true) == Module::finder_pattern(true), Module::from(true).value(), Module::from(false).value()];
+        let id = sink.id();
+        sink.emit(&json!({"ev": "ApiContracts", "id": id, "tag": "conv:api", "levels": lv, "err_display": [e1, e2], "err_debug": [d1, d2], "convert": kinds,
+                          "module_eq": meq.iter().map(|b| *b as u8).collect::<Vec<_>>(), "image_err_display": cps(&format!("{}", fast_qr::convert::image::ImageError::ImageError("boom".into())))}));
     }
     // QRCode::default(size): all light data modules, no fields, rows of `size` modules
     for size in [21usize, 25, 177] {
